@@ -201,7 +201,11 @@ def arc_to_cubic(
     if not isinstance(end_point, Point):
         end_point = Point(*end_point)
 
-    arc = EllipticalArc(start_point, rx, ry, rotation, large, sweep, end_point)
+    # negative radii: drop the sign (SVG 1.1 F.6.6 step 2), a mirrored unit space
+    # would otherwise reverse the sweep
+    arc = EllipticalArc(
+        start_point, fabs(rx), fabs(ry), rotation, large, sweep, end_point
+    )
     if arc.is_zero_length():
         return
     elif arc.is_straight_line():
